@@ -6,7 +6,7 @@ from .c01 import features, sat
 PROF = projgen.profile(p_dep=0.75, p_soft=0.45, p_ifthen=0.3, p_provides=0.45, p_unique=0.25, p_conflicts=0.3,
                        p_shadow=0.45, p_ctx_select=0.35, p_ctx_disable=0.25, p_cli_select=0.55, p_cli_disable=0.3,
                        p_tasks=0.1, p_custom_build=0.03, p_download=0.03, p_varopts=0.05)
-OBS = ("status", "decision", "modules")
+OBS = ("status", "decision", "modules", "loaded")
 
 
 def tree_of(p):
